@@ -191,16 +191,16 @@ class SemanticGraph:
         This is automatically called when models are added, but can be called
         manually if relationships are modified after models are registered.
         """
-        if not hasattr(self, "_adjacency"):
-            self._adjacency = {}
-        self._adjacency.clear()
+        # Build into a local dict and publish it with a single rebind at the end, so that a
+        # concurrent reader never observes a cleared or half-filled adjacency.
+        adjacency: dict[str, list[tuple[str, list[str], list[str], str]]] = {}
 
         def add_edge(
             from_model: str, to_model: str, from_keys: list[str], to_keys: list[str], relationship_type: str
         ) -> None:
-            if from_model not in self._adjacency:
-                self._adjacency[from_model] = []
-            self._adjacency[from_model].append((to_model, from_keys, to_keys, relationship_type))
+            if from_model not in adjacency:
+                adjacency[from_model] = []
+            adjacency[from_model].append((to_model, from_keys, to_keys, relationship_type))
 
         def invert_relationship(relationship_type: str) -> str:
             if relationship_type == "many_to_one":
@@ -264,6 +264,8 @@ class SemanticGraph:
                 add_edge(model_name, related_model, local_keys, remote_keys, relationship.type)
                 add_edge(related_model, model_name, remote_keys, local_keys, invert_relationship(relationship.type))
 
+        self._adjacency = adjacency
+
     def find_relationship_path(self, from_model: str, to_model: str) -> list[JoinPath]:
         """Find join path between two models using BFS.
 
@@ -289,17 +291,18 @@ class SemanticGraph:
         if to_model not in self.models:
             raise KeyError(f"Model {to_model} not found")
 
-        # BFS to find shortest path
+        # BFS to find shortest path (over one snapshot of the adjacency)
+        adjacency = self._adjacency
         queue = deque([(from_model, [])])
         visited = {from_model}
 
         while queue:
             current, path = queue.popleft()
 
-            if current not in self._adjacency:
+            if current not in adjacency:
                 continue
 
-            for next_model, from_keys, to_keys, relationship_type in self._adjacency[current]:
+            for next_model, from_keys, to_keys, relationship_type in adjacency[current]:
                 if next_model in visited:
                     continue
 
